@@ -25,6 +25,10 @@ RULE = ('cases = corpus + generated chunked encodings (payload 0..60 bytes, rand
         'application objects with different limits, interleaved); the malformed '
         'stream takes strict prefixes (cut in size line / payload / terminator / at chunk start), corrupted data '
         'terminators and single-byte substitutions of framing bytes of the same encodings, plus random bytes; '
+        '12% of the encodings have size lines of 65..300 bytes (long extensions such as ;chunk-signature=<64 hex>, long '
+        'runs of leading zeros) under buffers above that; 20% of the WSGI cases run under an application-supplied '
+        'errors_map (only RequestError / only BodyParsingError / only BodySizeError / foreign classes / empty) through the '
+        'constructor or setup(), with BaseRequest._raise in the model (wsgi_body); multipart bodies with an epilogue; '
         'kind=hex cases compare int(b.strip(),16) with lib/PyIntHex.v on numeral-like byte strings. thorough: every '
         'strict prefix and every substitution value at every framing position of 40 encodings. non-trivial = a decode '
         'case that issued >= 6 reads and had either >= 2 chunks or a short read; distinct by (data, buf, schedule '
@@ -49,7 +53,12 @@ def spell(rng, n, zeros=None):
     return ('0' * z + s).encode()
 
 
-def gen_ext(rng):
+def gen_ext(rng, long_lines=False):
+    if long_lines and rng.random() < 0.6:
+        # a long but legal extension (e.g. AWS-style chunk signatures): size lines of 65..300 bytes
+        return rng.choice([b';chunk-signature=' + b'%064x' % rng.getrandbits(256),
+                           b';x=' + b'y' * rng.randrange(60, 280),
+                           b';' + b'a=b;' * rng.randrange(16, 70)])
     if rng.random() < 0.55:
         return b''
     alpha = [b';', b'=', b'\r', b'\n', b'a', b'Z', b' ', b'"', b'\t', b'0']
@@ -67,23 +76,33 @@ def gen_encoding(rng, maxlen=60):
     if ln >= 8 and rng.random() < 0.3:
         k = rng.randrange(0, ln - 5)
         payload = payload[:k] + b'\r\n0\r\n' + payload[k + 5:]
+    mp_form = rng.random() < 0.08
+    if mp_form:
+        # a multipart form whose closing delimiter is followed by an epilogue: all of it is the body
+        payload = (b'--XyZ\r\nContent-Disposition: form-data; name="a"\r\n\r\nv\r\n--XyZ--\r\n'
+                   + bytes(rng.choice([13, 10, 45, 88, rng.randrange(256)]) for _ in range(rng.randrange(0, 40))))
+        ln = len(payload)
     cuts = sorted(set(rng.randrange(1, ln) for _ in range(rng.randrange(0, 5)))) if ln > 1 else []
     parts = [payload[a:b] for a, b in zip([0] + cuts, cuts + [ln])] if ln else []
     out = b''
     lines, terms = [], []
+    long_lines = rng.random() < 0.12
+    if mp_form:
+        parts = [payload[:7], payload[7:]] if len(payload) > 7 else [payload]
     for p in parts:
-        line = spell(rng, len(p)) + gen_ext(rng) + b'\r\n'
+        zeros = rng.randrange(60, 250) if long_lines and rng.random() < 0.3 else None
+        line = spell(rng, len(p), zeros) + gen_ext(rng, long_lines) + b'\r\n'
         lines.append([len(out), len(out) + len(line)])
         out += line + p
         terms.append(len(out))
         out += b'\r\n'
-    line = spell(rng, 0, zeros=rng.choice([0, 0, 1, 2])) + gen_ext(rng) + b'\r\n'
+    line = spell(rng, 0, zeros=rng.choice([0, 0, 1, 2, 70] if long_lines else [0, 0, 1, 2])) + gen_ext(rng, long_lines) + b'\r\n'
     lines.append([len(out), len(out) + len(line)])
     out += line
     last_end = len(out)
     out += rng.choice([b'\r\n', b'\r\n', b'X-T: v\r\n\r\n', b'', b'\r', b'junk', b'5\r\nhello\r\n'])
     return dict(data=out, payload=payload, lines=lines, terms=terms, last_end=last_end, nchunks=len(parts),
-                maxline=max(b - a for a, b in lines))
+                maxline=max(b - a for a, b in lines), mp_form=mp_form)
 
 
 def gen_sched(rng, n):
@@ -96,7 +115,7 @@ def gen_sched(rng, n):
 
 
 def mk(enc, data, buf, sched, expect, note, via='func', maxb=None, payload=None, cl=None, te=None, conf='ctor',
-       ctype=None, pre=()):
+       ctype=None, pre=(), emap=None):
     c = dict(kind='dec', data=list(data), buf=buf, sched=sched, maxb=maxb, via=via, expect=expect, note=note,
              nchunks=enc['nchunks'] if enc else 0)
     if via == 'wsgi':
@@ -106,6 +125,8 @@ def mk(enc, data, buf, sched, expect, note, via='func', maxb=None, payload=None,
         c['conf'] = conf
         c['ctype'] = ctype
         c['pre'] = list(pre)
+        if emap is not None:
+            c['emap'] = emap
         assert conf != 'setup_default' or (buf == DEFAULT_MEMFILE and maxb is None)
     if expect == 'exact':
         c['payload'] = list(enc['payload'] if payload is None else payload)
@@ -126,6 +147,38 @@ def framing_positions(enc):
     for t in enc['terms']:
         pos.extend([t, t + 1])
     return pos
+
+
+# application-supplied errors_map: entries [class id, status]; ids 0 RequestError, 1 BodySizeError,
+# 2 BodyParsingError, 3 a class outside the family (ValueError)
+EMAPS = [
+    [[0, 400]],                               # only the family base
+    [[0, 418]],
+    [[2, 422]],                               # only the subclass that chunked decoding raises
+    [[1, 413]],                               # the parsing error is not mapped at all: it escapes (the application's choice)
+    [[0, 400], [1, 413], [2, 400], [3, 409]],  # the default map plus a foreign class
+    [[2, 422], [0, 400]],
+    [[3, 409]],
+    [],
+]
+EMAP_CLASSES = {0: 'RequestError', 1: 'BodySizeError', 2: 'BodyParsingError'}
+
+
+def build_errors_map(emap):
+    from ombott import HTTPError
+    from ombott.request_pkg import errors as rq_errors
+    out = {}
+    for k, code in emap:
+        cls = getattr(rq_errors, EMAP_CLASSES[k]) if k in EMAP_CLASSES else ValueError
+        out[cls] = HTTPError(code, 'custom %d' % code)
+    return out
+
+
+def expected_status(emap, k):
+    """the documented rule of BaseRequest._raise: the exact class of the error, then the family base;
+    None = no entry, the exception escapes"""
+    d = dict((a, b) for a, b in emap)
+    return d.get(k, d.get(0))
 
 
 TE_CHUNKED = ['chunked', 'chunked', 'chunked', 'Chunked', 'CHUNKED', 'chunKed', 'gzip, chunked', 'xchunkedx',
@@ -152,6 +205,10 @@ def gen_wsgi(rng, enc, data, buf, sched, conf, plain=False):
                    te=rng.choice(TE_CHUNKED))
     if rng.random() < 0.35:
         hdr['ctype'] = rng.choice(['text', 'json', 'mp', 'mp', 'MP', 'mp_nob', 'mp_q'])
+    if enc.get('mp_form'):
+        hdr['ctype'] = 'mp'
+    if rng.random() < 0.2 and conf in ('ctor', 'setup', 'setup_over'):
+        hdr['emap'] = rng.choice(EMAPS)             # an application-supplied errors_map
     if rng.random() < 0.3:
         hdr['pre'] = [rng.choice(PRE_OPS) for _ in range(rng.randrange(1, 3))]
     r = rng.random()
@@ -178,12 +235,13 @@ def gen_wsgi(rng, enc, data, buf, sched, conf, plain=False):
 
 def gen_seq(rng):
     """3..7 requests on two application objects with different limits, interleaved"""
-    apps = [[rng.choice(['ctor', 'setup', 'setup_over']), rng.choice([8, 12, 20, 64]), None],
-            [rng.choice(['ctor', 'setup']), rng.choice([9, 16, 33]), rng.choice([None, 0, 5, 12])]]
+    apps = [[rng.choice(['ctor', 'setup', 'setup_over']), rng.choice([8, 12, 20, 64]), None, None],
+            [rng.choice(['ctor', 'setup']), rng.choice([9, 16, 33]), rng.choice([None, 0, 5, 12]),
+             rng.choice([None, None] + EMAPS)]]               # the second application may bring its own errors_map
     items = []
     for _ in range(rng.randrange(3, 8)):
         k = rng.randrange(2)
-        conf, buf, maxb = apps[k]
+        conf, buf, maxb, emap = apps[k]
         enc = gen_encoding(rng, maxlen=30)
         while enc['maxline'] > buf:
             enc = gen_encoding(rng, maxlen=30)
@@ -191,6 +249,9 @@ def gen_seq(rng):
         it['maxb'] = maxb
         if maxb is not None:
             it['expect'] = 'any'
+        it.pop('emap', None)
+        if emap is not None:
+            it['emap'] = emap
         it['app'] = k
         items.append(it)
     return dict(kind='seq', apps=apps, items=items)
@@ -353,7 +414,27 @@ def corpus():
                 conf='setup' if app_i else 'ctor')
         it['app'] = app_i
         seq_items.append(it)
-    out.append(dict(kind='seq', apps=[['ctor', 8, None], ['setup', 8, 5]], items=seq_items))
+    out.append(dict(kind='seq', apps=[['ctor', 8, None, None], ['setup', 8, 5, None]], items=seq_items))
+    # round 5: size lines of 65..300 bytes (long extension, long run of leading zeros) under a larger buffer
+    sig = b';chunk-signature=' + b'0123456789abcdef' * 4
+    longs = [b'8' + sig + b'\r\nabcdefgh\r\n0' + sig + b'\r\n\r\n',
+             b'0' * 100 + b'8\r\nabcdefgh\r\n' + b'0' * 70 + b'\r\n\r\n',
+             b'8;' + b'a=b;' * 60 + b'\r\nabcdefgh\r\n0\r\n\r\n']
+    for d_ in longs:
+        for b_, via_ in ((300, 'func'), (300, 'wsgi'), (DEFAULT_MEMFILE, 'wsgi')):
+            out.append(mk(dict(nchunks=1, payload=b'abcdefgh'), d_, b_, [0, 5, 1] * 99, 'exact', 'legal', via_,
+                          conf='setup_default' if b_ == DEFAULT_MEMFILE else 'ctor'))
+    out.append(mk(dict(nchunks=1), longs[0], 80, [], 'reject', 'legal', 'func'))       # 84-byte line, buffer 80
+    # round 5: application-supplied errors_map (only the family base / only the subclass / foreign classes / empty)
+    for em in EMAPS:
+        for conf in ('ctor', 'setup'):
+            out.append(mk(dict(nchunks=1), trunc, 8, [], 'reject', 'prefix', 'wsgi', conf=conf, emap=em))
+            out.append(mk(dict(nchunks=1, payload=b'abcdefgh'), legal, 8, [], 'exact', 'legal', 'wsgi', conf=conf, emap=em))
+        out.append(mk(dict(nchunks=1), legal, 4, [], 'any', 'legal', 'wsgi', maxb=5, emap=em))
+    # round 5: a multipart body whose closing delimiter is followed by an epilogue — the body is all of it
+    form = b'--XyZ\r\nContent-Disposition: form-data; name="a"\r\n\r\nv\r\n--XyZ--\r\n' + b'EPILOGUE' * 5
+    out.append(mk(dict(nchunks=2, payload=form), b'%x\r\n' % 60 + form[:60] + b'\r\n%x\r\n' % (len(form) - 60) + form[60:]
+                  + b'\r\n0\r\n\r\n', 8, [3] * 60, 'exact', 'legal', 'wsgi', ctype='mp'))
     # finding: Content-Length that int() rejects on a chunked request -> 500
     out.append(mk(dict(nchunks=1, payload=b'abcdefgh'), legal, 8, [], 'exact', 'legal', 'wsgi', cl='abc'))
     out.append(mk(dict(nchunks=1), legal, 4, [], 'any', 'legal', 'wsgi', maxb=5, conf='setup'))
@@ -395,12 +476,14 @@ DEFAULT_MEMFILE = 100 * 1024
 CONFS = ('ctor', 'setup', 'setup_over', 'setup_default')
 
 
-def make_app(conf, buf, maxb):
+def make_app(conf, buf, maxb, emap=None):
     """the application configured the ways the API offers: through the constructor, through
     app.setup(config) on a default app, through setup() overriding constructor values, and through a bare
     setup() (all defaults: max_memfile_size 100 KiB, no max_body_size)"""
     from ombott import Ombott
     cfg = dict(max_memfile_size=buf, max_body_size=maxb)
+    if emap is not None:
+        cfg['errors_map'] = build_errors_map(emap)
     if conf == 'ctor':
         return Ombott(cfg)
     if conf == 'setup':
@@ -437,14 +520,14 @@ def run_impl(case):
         spilled = not isinstance(body, BytesIO)
         body.seek(0)
         return dict(status='ok', body=list(body.read()), spilled=spilled, reqs=st.log, pos=st.pos)
-    app, holder = app_with_handler(case.get('conf', 'ctor'), case['buf'], case['maxb'])
+    app, holder = app_with_handler(case.get('conf', 'ctor'), case['buf'], case['maxb'], case.get('emap'))
     return call_wsgi(app, holder, case, st)
 
 
-def app_with_handler(conf, buf, maxb):
+def app_with_handler(conf, buf, maxb, emap=None):
     """an application with the echo route; [holder] carries the per-request inputs / observations of the
     handler, so that ONE application object can serve a whole sequence of cases"""
-    app = make_app(conf, buf, maxb)
+    app = make_app(conf, buf, maxb, emap)
     holder = {}
 
     def handler():
@@ -511,6 +594,8 @@ def call_wsgi(app, holder, case, st):
             return dict(status='unstable')
         return dict(status='ok', body=list(content), spilled=seen['spilled'], reqs=st.log, pos=st.pos)
     st_name = {400: 'parse_error', 413: 'too_large'}.get(code, 'http_%d' % code)
+    if case.get('emap') is not None:
+        st_name = 'http_%d' % code              # a supplied errors_map: the status itself is the observation
     return dict(status=st_name, reqs=st.log, pos=st.pos)
 
 
@@ -537,10 +622,13 @@ def encode(case):
     if case['via'] == 'wsgi':
         # through the _body glue: the RAW Content-Length value (flag 0 = header absent) and Transfer-Encoding
         cl = case.get('cl')
-        return ([2, 0 if cl is None else 1, case['buf'], 0 if case['maxb'] is None else 1, case['maxb'] or 0]
+        head = ([0 if cl is None else 1, case['buf'], 0 if case['maxb'] is None else 1, case['maxb'] or 0]
                 + enc_str(b'' if cl is None else cl_text(cl).encode('latin1'))
-                + enc_str(case.get('te', 'chunked').encode('latin1')) + enc_str(case['data'])
-                + enc_list(case['sched'], lambda k: [k]))
+                + enc_str(case.get('te', 'chunked').encode('latin1')))
+        tail = enc_str(case['data']) + enc_list(case['sched'], lambda k: [k])
+        if case.get('emap') is not None:        # BaseRequest._raise over the supplied errors_map, in the model
+            return [4] + head + enc_list(case['emap'], lambda e: list(e)) + tail
+        return [2] + head + tail
     return ([0, case['buf'], 0 if case['maxb'] is None else 1, case['maxb'] or 0]
             + enc_str(case['data']) + enc_list(case['sched'], lambda k: [k]))
 
@@ -567,6 +655,12 @@ def decode(out, case):
     if tag in (1, 2):
         reqs = r.list(lambda q: [q.int(), q.int()])
         return dict(status='too_large' if tag == 1 else 'parse_error', reqs=reqs, pos=r.int())
+    if tag == 5:                # mapped through a supplied errors_map
+        code = r.int()
+        reqs = r.list(lambda q: [q.int(), q.int()])
+        return dict(status='http_%d' % code, reqs=reqs, pos=r.int())
+    if tag == 6:                # no entry: the bare exception escapes
+        return dict(status='traceback_on_wsgi_errors', code=500)
     if tag == 8:                # int(CONTENT_LENGTH) raises ValueError: escapes as a 500 with a traceback
         return dict(status='traceback_on_wsgi_errors', code=500)
     return dict(status='model_tag_%d' % tag)
@@ -601,6 +695,24 @@ def oracle(case, obs):
             return 'int(%r, 16) = %r, expected %d' % (bytes(case['b']), obs.get('value'), case['value'])
         return None
     st = obs.get('status')
+    if case.get('emap') is not None and st != 'ok':
+        # an application-supplied errors_map: exact class, then the family base RequestError; no entry = the
+        # application chose to let it escape
+        want_parse, want_size = expected_status(case['emap'], 2), expected_status(case['emap'], 1)
+        got = obs.get('code', None) if st == 'traceback_on_wsgi_errors' else int(st.split('_')[1]) if st.startswith('http_') else st
+        if cl_not_int(case):
+            return None
+        if case['expect'] == 'exact' and (case['maxb'] is None or len(case['payload']) <= case['maxb']):
+            return 'legal chunked encoding answered %s under errors_map %s' % (got, case['emap'])
+        ok = set()
+        if case['expect'] != 'exact':
+            ok.add(500 if want_parse is None else want_parse)
+        if case['maxb'] is not None:
+            ok.add(500 if want_size is None else want_size)
+        if got not in ok:
+            return 'malformed chunked body answered %s; errors_map %s maps its error (BodyParsingError, else RequestError) to %s' % (
+                got, case['emap'], sorted(ok))
+        return None
     allowed = ('ok', 'parse_error') + (('too_large',) if case['maxb'] is not None else ())
     if st not in allowed:
         if cl_not_int(case):
@@ -653,7 +765,7 @@ def key(case):
         return ('seq', tuple(key(it) for it in case['items']))
     return (tuple(case['data'][:80]), len(case['data']), case['buf'], tuple(case['sched'][:8]), case['via'],
             case['maxb'], case.get('cl'), case.get('te'), case.get('conf'), case.get('ctype'),
-            tuple(case.get('pre', ())))
+            tuple(case.get('pre', ())), str(case.get('emap')))
 
 
 def classify(case, obs):
@@ -664,7 +776,8 @@ def classify(case, obs):
         return 'hex/%s' % ('value' if obs.get('value') is not None else 'ValueError')
     via = case['via'] + ('+CL' if case.get('cl') is not None else '') + (
         '' if case.get('conf', 'ctor') == 'ctor' else '+' + case['conf']) + (
-        '+ctype' if case.get('ctype') else '') + ('+pre' if case.get('pre') else '')
+        '+ctype' if case.get('ctype') else '') + ('+pre' if case.get('pre') else '') + (
+        '+emap' if case.get('emap') is not None else '')
     return '%s/%s/%s/%s/%s' % (via, case['note'], case['expect'],
                                'sched' if case['sched'] else 'full-reads', obs.get('status'))
 
@@ -749,8 +862,10 @@ API_SURFACE = [
     ('Ombott.__init__(config) / Ombott.setup(config) / setup()', 'covered by conf ctor / setup / setup_over / setup_default'),
     ('config max_memfile_size', 'covered (buffer = longest line + {0,1,7,64}, smaller, 100 KiB default)'),
     ('config max_body_size', 'covered by corpus + kind=seq; C13'),
-    ('config errors_map overridden by the user', 'excluded: then the status is the user\'s choice; the property fixes the default map '
-                                                 '(Gen.errors_map, regenerated each run)'),
+    ('config errors_map supplied by the application', 'covered by emap cases (only RequestError / only BodyParsingError / only '
+                                                      'BodySizeError / foreign classes / empty; ctor and setup): _raise is in '
+                                                      'the model (wsgi_body, C05_truncation_mapped_by_family)'),
+    ('size lines longer than 64 bytes', 'covered: 12% of the encodings (long extensions, long runs of zeros, 65..300 bytes)'),
     ('one application / Request object serving many requests, shared HTTPError instances', 'covered by kind=seq '
                                                                                             '(C05_response_function_of_request)'),
     ('two applications alive at once', 'covered by kind=seq (apps with different limits interleaved); process-wide isolation is C10'),
